@@ -195,6 +195,12 @@ def analyse(f):
     """returns (status, text) with status in 'ok' | 'violated' | 'unrecognised'"""
     # variate: exactly one RNG draw, outside every loop
     draws = [(bi, t) for bi, t, p in f.calls() if t['callee'].get('krate') in e1.RNG_CRATES and short(p) in ('gen', 'sample', 'random', 'gen_range')]
+    if len(f.loops) == 0:
+        r = strip_refs(f.local_expr(0))
+        if r[0] == 'call' and short(r[1]) == 'count' and r[2]:
+            inner = strip_refs(r[2][0])
+            if inner[0] == 'call' and short(inner[1]) == 'filter':
+                return 'violated', '`filter(..).count()` keeps scanning after the first weight that does not fit: later, smaller weights are counted too (a scan must stop there: take_while / position) @ %s' % f.where(0)
     if len(f.loops) != 1:
         raise Unrecognised('%d loops (expected one scan over the weights)' % len(f.loops))
     header, body = f.loops[0]
@@ -257,6 +263,11 @@ def analyse(f):
         d = l_add(cstate[l], {('x', l): 1.0}, -1.0)
         if is_float[l]:
             if set(d) - {W}:
+                # an affine update that does not accumulate (e.g. `lower = w` instead of `lower = upper`): the
+                # variable is then not a function of the running sum; kept as an opaque atom
+                if all((isinstance(k, tuple) and k[0] == 'x') or k in (W, U, ONE) for k in d):
+                    closed[l] = {('X', f.local_name(l) or str(l)): 1.0}
+                    continue
                 raise Unrecognised('update of %s is not  x += d*w' % (f.local_name(l) or l))
             closed[l] = l_add(init[l], {S: d.get(W, 0.0)})
         else:
@@ -282,6 +293,10 @@ def analyse(f):
         kind = {'Lt': 'Ge', 'Le': 'Gt', 'Gt': 'Le', 'Ge': 'Lt'}[kind]
     if kind in ('Lt', 'Le'):
         E = l_scale(E, -1.0)               # now: continue iff E > 0 (or >= 0)
+    opaque = [k for k in E if isinstance(k, tuple) and k[0] == 'X']
+    if opaque:
+        return 'violated', 'the continue condition depends on `%s`, which is overwritten instead of accumulated in the scan and therefore is not the cumulative bound (%s) @ %s' % (
+            opaque[0][1], 'continue iff  %s  > 0' % show_lin({(k[1] if isinstance(k, tuple) else k): v for k, v in E.items()}), f.where(line=line))
     if set(E) - {U, S, W, ONE}:
         raise Unrecognised('the continue condition depends on the counter')
     au, bs, gw, dc = E.get(U, 0.0), E.get(S, 0.0), E.get(W, 0.0), E.get(ONE, 0.0)
